@@ -26,12 +26,25 @@ func (e *Engine) propsOf(k *Contract) []string {
 		add(cl.Tags)
 	}
 	add(k.PanicTags)
+	loops := []*LoopSpec{}
 	for _, l := range k.Loops {
+		loops = append(loops, l)
+	}
+	for _, l := range k.LoopsByText {
+		loops = append(loops, l)
+	}
+	for _, l := range loops {
 		for _, cl := range l.Invariants {
 			add(cl.Tags)
 		}
 		for _, cl := range l.Asserts {
 			add(cl.Tags)
+		}
+		for _, cl := range l.Steps {
+			add(cl.Tags)
+		}
+		if l.Decreases != nil {
+			add(l.Decreases.Tags)
 		}
 	}
 	for _, as := range k.Ats {
